@@ -51,6 +51,11 @@ def make_experiments(d, seed):
             for t in g.transcripts:
                 n += 1
                 id_map[t.id] = "transcript%d.%s.nnic" % (n, g.chrom)
+    # feature ids are arbitrary strings: a gene called NA (a legal gene symbol) and a transcript whose id reads like a number with leading zeros
+    plain_ = [g for g in w.genes if g.transcripts and g.id not in id_map and not g.id.startswith(("P", "X", "Z")) and g.id != "G1_1"]
+    if plain_:
+        id_map[plain_[0].id] = "NA"
+        id_map[plain_[0].transcripts[0].id] = "007"
     w.write_gtf(os.path.join(d, "a.gtf"), id_map=id_map)
     reads = [r for r in w.reads]
     # one read -> group table for all experiments (sequences run with --read_group file:...): experiments that share read ids (A and B share a
